@@ -179,3 +179,78 @@ def check_dialect(run, rule, f, cfg, dialect):
                 why = "not of the form name[(params)]"
             run.ob(rule, key, ok, "%s: ColumnType::%s (%s) is declared as `%s`: %s" % (dialect, vn, label, txt, why), cfg=cfg)
     return n
+
+
+# ---- column specification pairs ---------------------------------------------------------------------------------------------
+
+CS = "crate::table::column::ColumnSpec"
+TBT = "crate::backend::table_builder::TableBuilder"
+
+
+def _mk_spec(f, v):
+    flds = []
+    for fl in v["fields"]:
+        ty = fl["ty"] if isinstance(fl["ty"], str) else f.ty(fl["ty"])
+        if "SimpleExpr" in (ty or ""):
+            flds.append(Var("crate::expr::SimpleExpr::Value", [Opaque("val")]))
+        elif ty == "bool":
+            flds.append(True)
+        else:
+            flds.append(Opaque(fl["name"]))
+    return Var(v["def"], flds)
+
+
+def check_spec_pairs(run, rule, f, cfg, dialect):
+    """prepare_column_def renders every column specification it was given, whatever else is in the list: for every ordered
+    pair of ColumnSpec variants the text written for [a, b] consists of exactly the texts written for [a] and for [b]
+    (in any order - SQLite moves PRIMARY KEY / AUTOINCREMENT last), tabulated by abstract interpretation"""
+    if CS not in f.adts:
+        run.anchor(rule, "%s:spec-pairs" % dialect, "enum ColumnSpec not found", cfg)
+        return 0
+    linker = L.Linker(f, dialect)
+    vs = f.adts[CS]["variants"]
+
+    def render(specs):
+        cd = {"table": None, "name": Opaque("name"), "types": None, "spec": specs}
+        t = kw.render(f, linker, TBT, "prepare_column_def", [cd])
+        if t is None:
+            return None
+        return re.sub(r"^(<[^>]*>)+", "", t)
+    single = {}
+    try:
+        for v in vs:
+            single[v["name"]] = render([_mk_spec(f, v)])
+    except Unsupported as e:
+        run.anchor(rule, "%s:spec-pairs" % dialect, "column definition outside the tabulated fragment: %s" % e, cfg)
+        return 0
+    n = 0
+    for a in vs:
+        for b in vs:
+            if a["name"] == b["name"]:
+                continue
+            if single[a["name"]] is None or single[b["name"]] is None:
+                continue      # the backend refuses this specification
+            try:
+                txt = render([_mk_spec(f, a), _mk_spec(f, b)])
+            except Unsupported as e:
+                run.anchor(rule, "%s:spec-pair:%s:%s" % (dialect, a["name"], b["name"]), "outside the tabulated fragment: %s" % e, cfg)
+                continue
+            n += 1
+            if txt is None:
+                continue
+            rest = txt
+            ok = True
+            for part in sorted([single[a["name"]].strip(), single[b["name"]].strip()], key=len, reverse=True):
+                if not part:
+                    continue
+                if part in rest:
+                    rest = rest.replace(part, "", 1)
+                else:
+                    ok = False
+            ok = ok and rest.strip() == ""
+            run.ob(rule, "%s:spec-pair:%s:%s" % (dialect, a["name"], b["name"]), ok,
+                   "%s: a column with the specifications [%s, %s] is written `%s`; alone they are written `%s` and `%s` - %s" % (
+                       dialect, a["name"], b["name"], txt.strip(), single[a["name"]].strip(), single[b["name"]].strip(),
+                       "both are there, nothing else" if ok else "one of them is DROPPED or changed by the presence of the other"),
+                   cfg=cfg, trivial=ok)
+    return n
